@@ -240,6 +240,7 @@ func c13(c *Ctx) {
 	}
 
 	c13ranges(c)
+	summaryAnnotation(c)
 	c13mutate(c)
 	c13shape(c)
 }
